@@ -999,10 +999,12 @@ class Simplifier(pysmt.walkers.DagWalker):
     def walk_str_to_int(self, formula: FNode, args: List[FNode], **kwargs) -> FNode:
         s = args[0]
         if s.is_string_constant():
-            try:
-                return self.manager.Int(int(s.constant_value()))
-            except ValueError:
-                return self.manager.Int(-1)
+            str_value = cast(str, s.constant_value())
+            # Only non-empty sequences of the digits 0-9 denote a number
+            # (int() also accepts signs, spaces, underscores, ...)
+            if str_value.isascii() and str_value.isdigit():
+                return self.manager.Int(int(str_value))
+            return self.manager.Int(-1)
         return self.manager.StrToInt(s)
 
     def walk_int_to_str(self, formula: FNode, args: List[FNode], **kwargs) -> FNode:
